@@ -4,7 +4,7 @@
 set -u
 cd "$(dirname "$0")/.."
 d="$1"; shift
-S=/tmp/seedscratch-$$
+S=/tmp/seedscratch-$$-$(date +%N)
 rm -rf $S && mkdir -p $S
 for e in /repo/*; do b=$(basename $e); case $b in giscanner|girepository|tools|gir) cp -r $e $S/$b;; *) ln -s $e $S/$b;; esac; done
 ( cd $S && patch -p1 -s < /verif/seeded/$d/patch.diff ) || { echo "patch does not apply"; rm -rf $S; exit 3; }
